@@ -516,10 +516,66 @@ def stream_files(run):
     flush(run, pending)
 
 
+def oracle_exp(run, case, names, rows, null, cfg, text):
+    """exponent notation (`%.Ne`, outside the model): same curves, rows, and every finite sample read back as float(token), the token
+    within half a unit of its last printed digit; NaN through the NULL marker"""
+    import lasio
+    nrows, ncols = len(rows), len(rows[0])
+    toks = " ".join(data_part(text)[1:]).split()
+    if len(toks) != nrows * ncols:
+        run.fail("written-token-count", case, dict(expected=nrows * ncols, got=len(toks)))
+        return
+    N = int(cfg["fmt"][2:-1])
+    for engine in ("numpy", "normal"):
+        try:
+            l2 = lasio.read(text, engine=engine)
+        except Exception as e:
+            run.fail("read-raises", case, dict(engine=engine, exc=repr(e)))
+            continue
+        if len(l2.curves) != ncols or any(len(c.data) != nrows for c in l2.curves):
+            run.fail("curve-count" if len(l2.curves) != ncols else "row-count", case,
+                     dict(engine=engine, expected=[ncols, nrows], got=[len(c.data) for c in l2.curves][:8]))
+            continue
+        for i in range(nrows):
+            for j in range(ncols):
+                x, y, tok = rows[i][j], float(l2.curves[j].data[i]), toks[i * ncols + j]
+                if math.isnan(x):
+                    if tok != str(null) or not math.isnan(y):
+                        run.fail("nan-comes-back-nan", case, dict(engine=engine, i=i, j=j, token=tok, got=repr(y)))
+                        return
+                    continue
+                e10 = int(tok.lower().split("e")[1]) if "e" in tok.lower() else 0
+                if y != float(tok) or abs(Fraction(tok) - Fraction(x)) > Fraction(10) ** (e10 - N) / 2:
+                    run.fail("read-value-is-float-of-token", case, dict(engine=engine, i=i, j=j, token=tok, got=y.hex(), x=x.hex()))
+                    return
+
+
+def stream_exponent(run, only=None):
+    """numeric formats in exponent notation: negative exponents next to negative values, a first row without any hyphen, wrapped and
+    unwrapped, both engines (the hyphen inside `1.5000e-05` is not a separator)"""
+    shapes = only or [(c, r, f, w, lnf) for c in (2, 3, 5) for r in (3, 4) for f in ("%.4e", "%.7E", "%.3e") for w in (False, True) for lnf in (None, -1)]
+    for c, r, f, w, lnf in shapes:
+        names = ["DEPT"] + ["C%d" % j for j in range(1, c)]
+        rows = [[(1.0 + 0.25 * (i * c + j)) * (10.0 ** ((3 if i == 0 else -5 + j) if (i == 0 or (i + j) % 2) else 2)) * (1.0 if i == 0 or j == 0 or (i * j) % 3 else -1.0)
+                 for j in range(c)] for i in range(r)]
+        if r > 2 and c > 1:
+            rows[2][1] = float("nan")
+        cfg = dict(mg.default_cfg(), fmt=f, wrap=w, len_numeric_field=lnf, data_width=40 if w else 79)
+        case = dict(mkcase(names, rows, "-999.25", cfg), stream="exponent", shape=[c, r, f, w, lnf])
+        run.case(case, nontrivial=True, tags=["exponent", "wrap=%s" % w, f])
+        try:
+            las, text = real_write(names, rows, "-999.25", cfg)
+        except Exception as e:
+            run.fail("write-raises", case, repr(e))
+            continue
+        oracle_exp(run, case, names, rows, "-999.25", cfg, text)
+
+
 def run(run):
     stream_fmt(run)
     stream_wrap(run)
     stream_files(run)
+    stream_exponent(run)
 
 
 # ------------------------------------------------------------------------------------------ search / shrink / replay
@@ -595,6 +651,10 @@ def replay(run, payload):
     case = payload["case"]
     if "cfg" not in case:
         return True
+    if case.get("stream") == "exponent":
+        sh = case["shape"]
+        stream_exponent(run, only=[(sh[0], sh[1], sh[2], sh[3], sh[4])])
+        return not run.failures
     names, rows, null, cfg = uncase(case)
     earlier = [[mg.fromhex(x) for x in r] for r in case["earlier"]] if "earlier" in case else None
     try:
